@@ -75,8 +75,14 @@ def mc(ck):
 def run(ck):
     hb = ck.build("h-node")
     mc(ck)
-    mode = "c25" if ck.prop == "C25" else "c38"
-    combos = COMBOS_QUICK if ck.quick else COMBOS_THOROUGH
+    record_validate(ck, hb)
+
+
+def record_validate(ck, hb, combos=None):
+    """Recorded runs of the real Syncer validated by Trace_Syncer (also used by the C24 check for the
+    end-to-end FetchAllowed clause)."""
+    mode = "c38" if ck.prop == "C38" else "c25"
+    combos = combos or (COMBOS_QUICK if ck.quick else COMBOS_THOROUGH)
     runs = 12 if ck.quick else 60
     for i, (n, batch, k) in enumerate(combos):
         trace = f"{ck.work}/trace{i}.ndjson"
